@@ -125,7 +125,10 @@ def pack_stages(prop, tier, seed):
             st.append(pack_stage("ign1", "ignore", "single", prop, seed))
         return st
     if prop == "C16":
-        return [pack_stage("spell", "spell", "none", prop, seed, extra_args=["-mode", "fresh"])]
+        # the second run is the same universe with the replayer (and its workers) built with the Go race detector:
+        # "other Pack calls running at the same time" must not even share unsynchronised state
+        return [pack_stage("spell", "spell", "none", prop, seed, extra_args=["-mode", "fresh"]),
+                pack_stage("spellrace", "spell", "none", prop, seed, extra_args=["-mode", "fresh"], race=True)]
     raise KeyError(prop)
 
 
@@ -197,9 +200,11 @@ def builder_stages(prop, tier, seed):
                       vh_args=["-props", prop, "-gamma", g, "-mode", "faults"], timeout=3000)
         wfault = pack_stage("writefaults", "rt", "none", prop, seed, extra_args=["-mode", "wfaults"])
         return [faults, ufault, wfault]
+    conc = builder_stage("conc", prop, seed, {"Adds": "<- MCAddsR", "RegPkgs": "{}", "MaxEdges": "1", "MaxAdds": "2", "Contents": "{1, 2}"},
+                         race=True, vh_args=["-props", prop, "-gamma", "%d" % (seed * 6), "-mode", "conc"])
     regsub = builder_stage("regsub", prop, seed, {"Adds": "<- MCAddsG", "Pkgs": '{"P1"}', "MaxEdges": "1", "MaxAdds": "2"})
     if prop == "C13":
-        return [coal, base, regsub, sched] if not q else [coal, regsub, sched]
+        return [coal, base, regsub, sched, conc] if not q else [coal, regsub, sched, conc]
     if prop == "C09":
         return [coal] if q else [coal, vers, base]
     raise KeyError(prop)
@@ -456,6 +461,11 @@ def check(vc, prop, tier, seed, t0):
                 samples.append(dict(trace_result=recs[0]) if recs else {})
                 continue
             res, stats = vc.run_stage(vh, scratch, stage, seed)
+            if res.get("skipped"):
+                vc.log("stage %s skipped: %s" % (stage["name"], res["skipped"]))
+                stage_info.append(dict(stage=stage["name"], module=stage["module"], skipped=res["skipped"], tlc=stats))
+                exhaustive = False
+                continue
             if res.get("infra", 0) > 0:
                 raise vc.Inconclusive("replayer infrastructure failures in stage %s: %s" % (stage["name"], res.get("notes")))
             states += stats["distinct"]
@@ -469,6 +479,24 @@ def check(vc, prop, tier, seed, t0):
             samples += res.get("samples") or []
             for k, n in (res.get("flag_counts") or {}).items():
                 flag_counts[k] = flag_counts.get(k, 0) + n
+            if stage.get("race"):
+                # a data race between calls the property says do not influence each other: the Go race detector
+                # reports only real unsynchronised conflicting accesses; one that involves no go-slug frame is a
+                # fault of the replayer itself and makes the run inconclusive
+                reps = res.get("race_reports") or []
+                lib = [r for r in reps if "github.com/hashicorp/go-slug" in r]
+                if len(lib) < len(reps):
+                    raise vc.Inconclusive("data race inside the replayer (no library frame) in stage %s: %s" % (stage["name"], [r for r in reps if r not in lib][0][:800]))
+                seen_sites = set()
+                for r in lib:
+                    site = tuple(l.strip() for l in r.splitlines() if "go-slug" in l and ".go:" in l)[:2]
+                    if site in seen_sites:
+                        continue
+                    seen_sites.add(site)
+                    k = prop + "|"
+                    flag_counts[k] = flag_counts.get(k, 0) + 1
+                    flags.append(dict(prop=prop, witness=["data race: " + " / ".join(site)], kf="", case=dict(report=r[:6000]), stage=stage["name"],
+                                      family=res["family"], reproduced_by="Go race detector report from the replay of this stage's cases on the real code"))
             for f in res.get("flags") or []:
                 f["stage"] = stage["name"]
                 f["family"] = res["family"]
